@@ -168,11 +168,18 @@ package dns
 //@ func unpackDataAplPrefix [C16 C12:fresh]
 //@   ensures fresh: ret2 == nil ==> fresh(ret0.Network.IP) && fresh(ret0.Network.Mask)
 
-//@ func (*Msg).CopyTo [C16]
-//@   opt no-safety
-//@   requires r1 != nil && dns != nil
+//@ func (*Msg).CopyTo [C16 C02]
+// (the sections of a decoded message hold no nil record: UnpackRR's `some`)
+//@   requires nonnil: (forall k in 0..len(dns.Answer) :: dns.Answer[k] != nil) && (forall k in 0..len(dns.Ns) :: dns.Ns[k] != nil) && (forall k in 0..len(dns.Extra) :: dns.Extra[k] != nil)
+//@   requires r1 != nil && dns != nil && r1 != dns
 //@   ensures ans: fresh(r1.Answer) && fresh(r1.Ns) && fresh(r1.Extra)
 //@   ensures qst: len(dns.Question) > 0 ==> fresh(r1.Question) && len(r1.Question) == len(dns.Question)
 //@   loop 1 invariant fresh(r1.Answer) && fresh(r1.Ns) && fresh(r1.Extra)
+//@   loop 1 invariant kept: same(dns.Answer, old(dns.Answer)) && same(dns.Ns, old(dns.Ns)) && same(dns.Extra, old(dns.Extra)) && r1 != dns
+//@   loop 1 invariant nonnil: (forall k in 0..len(dns.Answer) :: dns.Answer[k] != nil) && (forall k in 0..len(dns.Ns) :: dns.Ns[k] != nil) && (forall k in 0..len(dns.Extra) :: dns.Extra[k] != nil)
 //@   loop 2 invariant fresh(r1.Answer) && fresh(r1.Ns) && fresh(r1.Extra)
+//@   loop 2 invariant kept: same(dns.Answer, old(dns.Answer)) && same(dns.Ns, old(dns.Ns)) && same(dns.Extra, old(dns.Extra)) && r1 != dns
+//@   loop 2 invariant nonnil: (forall k in 0..len(dns.Answer) :: dns.Answer[k] != nil) && (forall k in 0..len(dns.Ns) :: dns.Ns[k] != nil) && (forall k in 0..len(dns.Extra) :: dns.Extra[k] != nil)
 //@   loop 3 invariant fresh(r1.Answer) && fresh(r1.Ns) && fresh(r1.Extra)
+//@   loop 3 invariant kept: same(dns.Answer, old(dns.Answer)) && same(dns.Ns, old(dns.Ns)) && same(dns.Extra, old(dns.Extra)) && r1 != dns
+//@   loop 3 invariant nonnil: (forall k in 0..len(dns.Answer) :: dns.Answer[k] != nil) && (forall k in 0..len(dns.Ns) :: dns.Ns[k] != nil) && (forall k in 0..len(dns.Extra) :: dns.Extra[k] != nil)
